@@ -832,3 +832,95 @@ func ruleCLEANUPMAYOVERFLOW(p *Program, rep *Report) {
 		rep.Bad("CLEANUP-MAY-OVERFLOW", "Writer.doFlush|uses-BeginWrite", p.Pos(doFlush.Pos()), "Writer.doFlush does not start its transaction through Delegate.BeginWrite (overflow area must stay off for writes)")
 	}
 }
+
+// ---------------------------------------------------------------- POSITION-COHERENT (C06)
+
+type opaqueTxfilePlugin struct{ basePlugin }
+
+func (opaqueTxfilePlugin) OnCall(in *Interp, fs *FState, site ssa.Instruction, callee *ssa.Function, fnv Value, args []Value) (bool, Value) {
+	if callee != nil && fnPkgPath(callee) == modPath {
+		return true, in.unknown(callee.Signature.Results())
+	}
+	return false, nil
+}
+
+// rulePOSITIONCOHERENT: the new on-disk read position computed by the ACK is one coherent sample of the
+// cursor: if its offset is the cursor's current offset, its page is the cursor's current page (the skip
+// loop may have advanced the cursor into a later page).
+func rulePOSITIONCOHERENT(p *Program, rep *Report) {
+	rep.Rule("POSITION-COHERENT", 1, "in acker.findNewStartPositions the persisted read position takes page and offset from the same cursor state: an offset sampled after the skip loop is never combined with a page id sampled before it")
+	fn := p.Method("pq", "acker", "findNewStartPositions")
+	pos := p.Struct("pq", "position")
+	idx := map[string]int{}
+	for i := 0; i < pos.NumFields(); i++ {
+		idx[pos.Field(i).Name()] = i
+	}
+	if _, ok := idx["page"]; !ok {
+		panic(vocabMiss{"pq.position.page"})
+	}
+	if _, ok := idx["off"]; !ok {
+		panic(vocabMiss{"pq.position.off"})
+	}
+	in := newInterp(p, opaqueTxfilePlugin{})
+	var exits []Exit
+	failed := ""
+	curCell := in.singleton(p.Named("pq", "cursor"))
+	func() {
+		defer func() {
+			if e := recover(); e != nil {
+				failed = fmt.Sprintf("%v", e)
+			}
+		}()
+		st := newState(noProp{})
+		args := recvArgs(in, fn, PtrV{cell: in.singleton(p.Named("pq", "acker"))})
+		// the cursor parameter: the txCursor singleton, whose cursor field points at the cursor singleton
+		for i, par := range fn.Params {
+			if isNamed(par.Type(), modPath+"/pq", "txCursor") {
+				tc := in.singleton(p.Named("pq", "txCursor"))
+				in.storeCell(st, in.fieldCell(tc, "cursor"), PtrV{cell: curCell})
+				args[i] = PtrV{cell: tc}
+			}
+		}
+		exits = in.Run(fn, args, st)
+		failed = in.failed
+	}()
+	rep.Analysed(in.enteredNames()...)
+	where := p.Pos(fn.Pos())
+	if failed != "" || len(exits) == 0 {
+		rep.Unknown("POSITION-COHERENT", "acker.findNewStartPositions", where, "analysis did not complete: "+failed)
+		return
+	}
+	bad, n := false, 0
+	for _, e := range exits {
+		if errOfExit(fn, e) == 2 {
+			continue
+		}
+		tv, ok := e.ret.(TupleV)
+		if !ok || len(tv.elems) < 2 {
+			continue
+		}
+		read, ok := tv.elems[1].(StructV)
+		if !ok || len(read.fields) <= idx["off"] {
+			continue
+		}
+		n++
+		curPage := in.loadCell(e.st, in.fieldCell(curCell, "page"))
+		curOff := in.loadCell(e.st, in.fieldCell(curCell, "off"))
+		rp, ro := read.fields[idx["page"]], read.fields[idx["off"]]
+		if rp == nil || ro == nil {
+			continue
+		}
+		if valueKey(ro) == valueKey(curOff) && symOf(curOff) != 0 && valueKey(rp) != valueKey(curPage) {
+			bad = true
+		}
+	}
+	if n == 0 {
+		rep.Unknown("POSITION-COHERENT", "acker.findNewStartPositions", where, "no successful exit with a position result found (anchor lost)")
+		return
+	}
+	if bad {
+		rep.Bad("POSITION-COHERENT", "acker.findNewStartPositions|read", where, "the new read position combines the cursor's offset after skipping the ACKed events with a page id taken before the skip: when the last ACKed event crosses a page boundary the persisted read pointer names the wrong page, and after a reopen the reader decodes payload bytes as an event header")
+	} else {
+		rep.OK("POSITION-COHERENT", "acker.findNewStartPositions|read", where, fmt.Sprintf("%d successful exit class(es): page and offset of the read position come from the same cursor state", n))
+	}
+}
